@@ -141,8 +141,14 @@ def find_top_head(scfg):
 # ---------------------------------------------------------------- W1
 
 class W1:
-    def __init__(self, scfg, originals):
+    def __init__(self, scfg, originals, flat=False):
+        """flat=True: a target that names nothing in its own or an enclosing
+        region is looked up in the whole hierarchy (the walk over the flattened
+        result that C06's quantifier speaks of).  Only used to follow up on a
+        walk that the scoped lookup had to abandon (a C04 violation)."""
         self.top = scfg
+        self.flat = flat
+        self.index = None
         self.m = Machine(originals)
         self.stack = []  # enclosing regions, outermost first
         self.trace = []  # leaf names visited, in order
@@ -171,6 +177,20 @@ class W1:
             g = self._graph_at(j)
             if t in g.graph:
                 del self.stack[j:]
+                return self._descend(g.graph[t])
+        if self.flat:
+            if self.index is None:
+                self.index = {}
+
+                def scan(g, chain):
+                    for name, b in g.graph.items():
+                        self.index.setdefault(name, (g, chain))
+                        if is_region(b) and b.subregion is not None and len(chain) < 200:
+                            scan(b.subregion, chain + [b])
+                scan(self.top, [])
+            if t in self.index:
+                g, chain = self.index[t]
+                self.stack[:] = chain
                 return self._descend(g.graph[t])
         raise Viol("C04", "unresolvable-target", frm,
                    "target %s of %s names nothing in its region or an enclosing one" % (t, frm))
